@@ -1,4 +1,6 @@
 import SockModel.Model.HsTimed
+import SockModel.Model.FairProgress
+import SockModel.Model.HsBlock
 /-!
 A driver-operated (asynchronous) TLS socket on the healthy channel: its driver tasks are zero-timeout calls.
 
@@ -249,5 +251,368 @@ theorem tlsWrite_fl (C : Cfg) (r : Bool) (E : Engine σ) (s : St σ Chan) (data 
   · exact ⟨rfl, hb'⟩
   · exact ⟨rfl, hb'⟩
 
+
+/-! ### `Read` / `Write` with budget 0 against the reference engine (the cores of `recv_spec` / `send_spec`, with what
+they leave in `lastError` spelled out) -/
+
+/-- after a call, an unfinished engine is waiting for a flight, and the glue knows it -/
+def Tight (s : St Hs Chan) : Prop := s.e.stage < 3 → s.g.lastError = .wantRead
+
+theorem tlsRead_hs (C : Cfg) (hC : 0 < C.stepsMax) (P : HsP) (r : Bool) (data : Bytes) (n : Nat) (hn : 1 ≤ n)
+    (s : St Hs Chan) (hi : SideInv P r data s) :
+    ∃ bs s', tlsRead C (chanWorld r) (engine P) (setTimeout s 0) n = (.ok bs, s') ∧ SideInv P r data s' ∧
+      Tr P r s.e s.w s'.e s'.w ∧ (CanProg r s.e s.w → work P s'.e < work P s.e) ∧ Tight s' ∧
+      (bs ≠ [] → 3 ≤ s'.e.stage ∧ s'.g.lastError = .none) := by
+  obtain ⟨i, hi1⟩ : ∃ i, C.stepsMax = i + 1 := ⟨C.stepsMax - 1, by omega⟩
+  simp only [tlsRead]
+  rcases gate P r data s hi with ⟨s1, e1, c1, ee1, w1, l1, p1⟩ | ⟨s1', e1', _, _, _, l1, hin⟩
+  · rw [e1, hi1]
+    simp only [readLoop, readRound]
+    obtain ⟨ans, out, s2, e2, c2, l2, p2, t2, a2, g2⟩ := sslRead_spec P r s1 n hn c1 (by rw [ee1]; exact hi.2.2.2.2.1) (by rw [ee1]; exact hi.2.2.2.1)
+    rw [e2]
+    rw [ee1, w1] at t2 g2
+    have hcl2 : s2.e.client = r := t2.cl.trans hi.2.2.2.1
+    have hpend : s2.g.pendingSend = [] ∨ s2.g.pendingSend = data := by rw [p2, p1]; exact hi.2.2.2.2.2.2.2
+    cases ans with
+    | done k =>
+      obtain ⟨hfin, _, hne⟩ := a2
+      have hl2 : (noteCall (engine P) s2 true [] (.done k)).g.lastError = .none := by
+        show s2.g.lastError = _; rw [l2, l1]
+      have hside : SideInv P r data (noteCall (engine P) s2 true [] (.done k)) :=
+        ⟨c2.2.1, c2.2.2.1, c2.2.2.2, hcl2, t2.wf, Or.inl hl2,
+          (by intro h; rw [hl2] at h; cases h), hpend⟩
+      exact ⟨out, _, rfl, hside, t2, fun hcp => g2 hcp.1 hcp.2, (by intro h; exact absurd (show s2.e.stage < 3 from h) (by omega)),
+        fun _ => ⟨hfin, hl2⟩⟩
+    | wantRead =>
+      obtain ⟨hin2, hnw, _⟩ := a2
+      obtain ⟨s3, e3, c3, ee3, w3, l3, p3⟩ := handleResult_blocked r (noteCall (engine P) s2 true [] .wantRead) c2 hin2
+      simp only [e3]
+      have hside : SideInv P r data s3 :=
+        ⟨c3.2.1, c3.2.2.1, c3.2.2.2, by rw [ee3]; exact hcl2, by rw [ee3]; exact t2.wf, Or.inr l3,
+          by intro _; rw [ee3]; exact hnw, by rw [p3]; exact hpend⟩
+      have ht : Tr P r s.e s.w s3.e s3.w := by rw [ee3, w3]; exact t2
+      exact ⟨[], s3, rfl, hside, ht, (fun hcp => by rw [ee3]; exact g2 hcp.1 hcp.2), fun _ => l3, fun h => absurd rfl h⟩
+    | wantWrite => exact absurd a2 (by simp [AnsOK])
+    | zeroReturn => exact absurd a2 (by simp [AnsOK])
+    | syscallErr => exact absurd a2 (by simp [AnsOK])
+    | sslErr => exact absurd a2 (by simp [AnsOK])
+  · obtain ⟨s1, e1, i1, ee1, w1, l1'⟩ := gate_blocked P r data s hi l1 hin
+    rw [e1]
+    have ht : Tr P r s.e s.w s1.e s1.w := by rw [ee1, w1]; exact Tr.refl P r s.e s.w hi.2.2.2.2.1
+    refine ⟨[], s1, rfl, i1, ht, ?_, fun _ => l1', fun h => absurd rfl h⟩
+    intro hcp
+    exfalso
+    rcases hcp.2 with hwr | hpos
+    · have := hi.2.2.2.2.2.2.1 l1 hcp.1; rw [this] at hwr; cases hwr
+    · omega
+
+/-- `writeRound_hs` with the outcome spelled out: the round either took the whole buffer - then the engine is finished
+and no error is cached -, or stopped on WANT_READ -/
+theorem writeRound_hs' (C : Cfg) (P : HsP) (r : Bool) (data : Bytes) (hd : data ≠ []) (s0 s1 : St Hs Chan)
+    (hi : SideInv P r data s0) (c1 : Calm s1) (ee1 : s1.e = s0.e) (w1 : s1.w = s0.w) (l1 : s1.g.lastError = .none)
+    (p1 : s1.g.pendingSend = s0.g.pendingSend) (i' : Nat) (hi' : 1 ≤ i') :
+    (∃ j s2, writeRound C (chanWorld r) (engine P) i' data s1 = (.again j [], s2) ∧ Good P r data s0 s2 ∧
+      3 ≤ s2.e.stage ∧ s2.g.lastError = .none) ∨
+    (∃ s3, writeRound C (chanWorld r) (engine P) i' data s1 = (.stop (.ok data), s3) ∧ Good P r data s0 s3 ∧
+      s3.g.lastError = .wantRead) := by
+  have hp0 : s1.g.pendingSend = [] ∨ s1.g.pendingSend = data := by rw [p1]; exact hi.2.2.2.2.2.2.2
+  unfold writeRound
+  rw [if_neg (by intro h; exact h.2 (hp0.imp id (congrArg List.length)))]
+  obtain ⟨ans, out, s2, e2, c2, l2, p2, t2, a2, g2⟩ :=
+    sslWrite_spec P r s1 data hd c1 (by rw [ee1]; exact hi.2.2.2.2.1) (by rw [ee1]; exact hi.2.2.2.1)
+  rw [e2]
+  rw [ee1, w1] at t2 g2
+  have hcl2 : s2.e.client = r := t2.cl.trans hi.2.2.2.1
+  cases ans with
+  | done k =>
+    obtain ⟨hfin, hk⟩ := a2
+    left
+    have hdrop : data.drop k = [] := by rw [hk]; simp
+    have hl : (setPending (noteCall (engine P) s2 false data (.done k)) []).g.lastError = .none := by
+      show s2.g.lastError = _; rw [l2, l1]
+    have hgood : Good P r data s0 (setPending (noteCall (engine P) s2 false data (.done k)) []) :=
+      ⟨⟨c2.2.1, c2.2.2.1, c2.2.2.2, hcl2, t2.wf, Or.inl hl,
+        (by intro h; rw [hl] at h; cases h), Or.inl rfl⟩,
+       t2, fun hcp => g2 hcp.1 hcp.2⟩
+    simp only
+    by_cases hb : 0 < k ∧ C.fixRoundReset = true
+    · rw [if_pos hb, hdrop]; exact ⟨_, _, rfl, hgood, hfin, hl⟩
+    · rw [if_neg hb, if_neg (by intro h; omega), hdrop]; exact ⟨_, _, rfl, hgood, hfin, hl⟩
+  | wantRead =>
+    obtain ⟨hin2, hnw, hlt⟩ := a2
+    right
+    obtain ⟨s3, e3, c3, ee3, w3, l3, p3⟩ :=
+      handleResult_blocked r (setPending (noteCall (engine P) s2 false data .wantRead) data) c2 hin2
+    simp only [writeRetry, e3]
+    exact ⟨s3, rfl, ⟨⟨c3.2.1, c3.2.2.1, c3.2.2.2, by rw [ee3]; exact hcl2, by rw [ee3]; exact t2.wf, Or.inr l3,
+      by intro _; rw [ee3]; exact hnw, Or.inr (by rw [p3]; rfl)⟩, by rw [ee3, w3]; exact t2,
+      fun hcp => by rw [ee3]; exact g2 hcp.1 hcp.2⟩, l3⟩
+  | wantWrite => exact absurd a2 (by simp [AnsOK])
+  | zeroReturn => exact absurd a2 (by simp [AnsOK])
+  | syscallErr => exact absurd a2 (by simp [AnsOK])
+  | sslErr => exact absurd a2 (by simp [AnsOK])
+
+theorem tlsWrite_hs (C : Cfg) (hC : 1 < C.stepsMax) (P : HsP) (r : Bool) (data : Bytes) (hd : data ≠ [])
+    (s : St Hs Chan) (hi : SideInv P r data s) :
+    ∃ k s', tlsWrite C (chanWorld r) (engine P) (setTimeout s 0) data = (.ok k, s') ∧ SideInv P r data s' ∧
+      Tr P r s.e s.w s'.e s'.w ∧ (CanProg r s.e s.w → work P s'.e < work P s.e) ∧ Tight s' ∧
+      ((k = data.length ∧ 3 ≤ s'.e.stage ∧ s'.g.lastError = .none) ∨ k = 0) := by
+  simp only [tlsWrite]
+  rcases gate P r data s hi with ⟨s1, e1, c1, ee1, w1, l1, p1⟩ | ⟨s1', e1', _, _, _, l1, hin⟩
+  · rw [e1]
+    simp only
+    have hloop := writeLoop_rule C (chanWorld r) (engine P)
+      (fun i rest s' => (rest = data ∧ s' = s1 ∧ 1 < i) ∨ (rest = [] ∧ Good P r data s s' ∧ 3 ≤ s'.e.stage ∧ s'.g.lastError = .none))
+      (fun o s' => Good P r data s s' ∧ ((o = .ok [] ∧ 3 ≤ s'.e.stage ∧ s'.g.lastError = .none) ∨
+        (o = .ok data ∧ s'.g.lastError = .wantRead)))
+      (by intro i rest s' h hex
+          rcases h with ⟨h1, _, h3⟩ | ⟨h1, h2, h3⟩
+          · rcases hex with h0 | h0
+            · omega
+            · exact absurd (h1 ▸ h0) hd
+          · exact ⟨h2, Or.inl ⟨by rw [h1], h3⟩⟩)
+      (by intro i' rest s' o s'' h hne heq
+          rcases h with ⟨h1, h2, h3⟩ | ⟨h1, _⟩
+          · subst h1; subst h2
+            rcases writeRound_hs' C P r rest hd s s' hi c1 ee1 w1 l1 p1 i' (by omega) with ⟨j, s2, hr, _⟩ | ⟨s3, hr, hg, hl⟩
+            · rw [hr] at heq; simp at heq
+            · rw [hr] at heq
+              simp only [Prod.mk.injEq, Next.stop.injEq] at heq
+              obtain ⟨rfl, rfl⟩ := heq
+              exact ⟨hg, Or.inr ⟨rfl, hl⟩⟩
+          · exact absurd h1 hne)
+      (by intro i' rest s' j rest' s'' h hne heq
+          rcases h with ⟨h1, h2, h3⟩ | ⟨h1, _⟩
+          · subst h1; subst h2
+            rcases writeRound_hs' C P r rest hd s s' hi c1 ee1 w1 l1 p1 i' (by omega) with ⟨j2, s2, hr, hg, hf, hl⟩ | ⟨s3, hr, _, _⟩
+            · rw [hr] at heq
+              simp only [Prod.mk.injEq, Next.again.injEq] at heq
+              obtain ⟨⟨_, rfl⟩, rfl⟩ := heq
+              exact Or.inr ⟨rfl, hg, hf, hl⟩
+            · rw [hr] at heq; simp at heq
+          · exact absurd h1 hne)
+      C.stepsMax data s1 (Or.inl ⟨rfl, rfl, hC⟩)
+    rcases hw : writeLoop C (chanWorld r) (engine P) C.stepsMax data s1 with ⟨o, s''⟩
+    rw [hw] at hloop
+    obtain ⟨⟨hside, ht, hp⟩, hcase⟩ := hloop
+    rcases hcase with ⟨ho, hf, hl⟩ | ⟨ho, hl⟩
+    · simp only at ho
+      subst ho
+      exact ⟨_, s'', rfl, hside, ht, hp, (by intro h; have hf' : 3 ≤ s''.e.stage := hf; omega), Or.inl ⟨by simp, hf, hl⟩⟩
+    · simp only at ho
+      subst ho
+      exact ⟨_, s'', rfl, hside, ht, hp, fun _ => hl, Or.inr (by simp)⟩
+  · obtain ⟨s1, e1, i1, ee1, w1, l1'⟩ := gate_blocked P r data s hi l1 hin
+    rw [e1]
+    refine ⟨0, s1, rfl, i1, by rw [ee1, w1]; exact Tr.refl P r s.e s.w hi.2.2.2.2.1, ?_, fun _ => l1', Or.inr rfl⟩
+    intro hcp
+    exfalso
+    rcases hcp.2 with hwr | hpos
+    · have := hi.2.2.2.2.2.2.1 l1 hcp.1; rw [this] at hwr; cases hwr
+    · omega
+
+/-! ### the driver's readable task -/
+
+/-- a cached WANT_READ is forgotten ("we have been deemed readable") -/
+def clr (s : St Hs Chan) : St Hs Chan :=
+  { s with g := { s.g with lastError := if s.g.lastError = .wantRead then .none else s.g.lastError } }
+
+theorem sideInv_clr (P : HsP) (r : Bool) (data : Bytes) (s : St Hs Chan) (hi : SideInv P r data (nf s)) :
+    SideInv P r data (nf (clr s)) := by
+  by_cases hl : s.g.lastError = .wantRead
+  · have : nf (clr s) = setLastError (nf s) .none := by simp [nf, clr, setLastError, hl]
+    rw [this]; exact sideInv_setNone P r data _ hi
+  · have : nf (clr s) = nf s := by
+      rcases s with ⟨⟨le, ps, rt, ir, iw, dss, pe, wire, bw, ec⟩, e, w⟩
+      simp only at hl
+      simp [nf, clr, hl]
+    rw [this]; exact hi
+
+/-- **`DriverOnReadable` = `Receive(rx, 0)`** on a socket that `poll` reported readable: same engine, channel and
+result as the zero-timeout call from the state without flags; afterwards a finished engine has no error cached and an
+unfinished one has WANT_READ cached. -/
+theorem receiveReadable_hs (C : Cfg) (hC : 0 < C.stepsMax) (P : HsP) (r : Bool) (data : Bytes) (rx : Nat)
+    (hrx : 1 ≤ rx) (s : St Hs Chan) (hi : SideInv P r data (nf s)) (hin : 0 < s.w.inb r) :
+    ∃ bs s', receiveReadable C (chanWorld r) (engine P) s rx = (.ok bs, s') ∧ SideInv P r data (nf s') ∧
+      Tr P r s.e s.w s'.e s'.w ∧ (CanProg r s.e s.w → work P s'.e < work P s.e) ∧ Tight (nf s') ∧
+      (3 ≤ s'.e.stage → s'.g.lastError = .none) := by
+  have hfl : Fl r (prepReadable s) := ⟨rfl, fun _ => hin⟩
+  obtain ⟨a, s1, hL, hR, _⟩ := (tlsRead_fl C r (engine P) (prepReadable s) rx hfl).cases
+  have hnf : nf (prepReadable s) = setTimeout (nf (clr s)) 0 := rfl
+  rw [hnf] at hR
+  obtain ⟨bs, s2, e2, side2, t2, g2, tight2, fin2⟩ := tlsRead_hs C hC P r data rx hrx (nf (clr s)) (sideInv_clr P r data s hi)
+  rw [e2] at hR
+  obtain ⟨rfl, hs2⟩ := Prod.mk.inj hR
+  have t2' : Tr P r s.e s.w s1.e s1.w := by
+    have : Tr P r s.e s.w (nf s1).e (nf s1).w := by rw [← hs2]; exact t2
+    exact this
+  have g2' : CanProg r s.e s.w → work P s1.e < work P s.e := by
+    intro h
+    have : work P (nf s1).e < work P s.e := by rw [← hs2]; exact g2 h
+    exact this
+  simp only [receiveReadable, hL]
+  cases bs with
+  | nil =>
+    simp only
+    by_cases hf : (engine P).initFinished s1.e = true
+    · rw [if_pos hf]
+      refine ⟨[], _, rfl, ?_, t2', g2', ?_, fun _ => rfl⟩
+      · have : nf (setLastError s1 .none) = setLastError (nf s1) .none := rfl
+        rw [this, ← hs2]; exact sideInv_setNone P r data _ side2
+      · intro hlt
+        have h3 : 3 ≤ s1.e.stage := by simpa [engine] using hf
+        exact absurd (show s1.e.stage < 3 from hlt) (by omega)
+    · rw [if_neg hf]
+      refine ⟨[], _, rfl, by rw [← hs2]; exact side2, t2', g2', by rw [← hs2]; exact tight2, ?_⟩
+      intro h3
+      exact absurd (by simpa [engine] using h3) hf
+  | cons b bs =>
+    simp only
+    obtain ⟨f1, f2⟩ := fin2 (by simp)
+    refine ⟨b :: bs, _, rfl, by rw [← hs2]; exact side2, t2', g2', by rw [← hs2]; exact tight2, ?_⟩
+    intro _
+    have : (nf s1).g.lastError = .none := by rw [← hs2]; exact f2
+    exact this
+
+/-! ### an asynchronous (driver-operated) SERVER and a polling synchronous client -/
+
+/-- the asynchronous server `x` (driver-side state `x.a`, TLS glue and engine `x.s.g`, `x.s.e`; `x.s.w` are the two
+channels), and the polling client -/
+structure SysAS where
+  x : ASt Hs Chan
+  gp : Glue := {}
+  ep : Hs
+  /-- client calls, or driver steps, that ended with an exception or a failed assert -/
+  faults : Nat := 0
+
+/-- `drive` = one `Driver::Step` on the server's driver (`DriverQuery`, `poll`, at most one task);
+`peer k` = the client calls `Send(dc, 0)` / `Receive(n, 0)` -/
+inductive ActA where
+  | drive
+  | peer (k : Kind)
+  deriving DecidableEq, Repr
+
+/-- what `poll` reports for the server's descriptor: readable iff bytes towards the server are in flight, always
+writable, never HUP/ERR (the channel is healthy) -/
+def SysAS.rev (y : SysAS) : REvents := { rd := decide (0 < y.x.s.w.inb false), wr := true, hupErr := false }
+
+def SysAS.step (C : Cfg) (P : HsP) (dc : Bytes) (rx : Nat) (y : SysAS) : ActA → SysAS
+  | .drive =>
+    let r := aTask C (chanWorld false) (engine P) rx (aQuery (engine P) y.x) y.rev
+    { y with x := r.2, faults := y.faults + (if isOk r.1 then 0 else 1) }
+  | .peer k =>
+    let r := callOn C P true ⟨y.gp, y.ep, y.x.s.w⟩ (k.call dc)
+    { y with gp := r.2.g, ep := r.2.e, x := { y.x with s := { y.x.s with w := r.2.w } },
+             faults := y.faults + (if r.1 then 0 else 1) }
+
+/-- `drive` is `aApply … (.step rev)` of `Model/Tls.lean` with the revents the channel dictates -/
+theorem drive_is_aApply (C : Cfg) (P : HsP) (dc : Bytes) (rx : Nat) (y : SysAS) :
+    (y.step C P dc rx .drive).x = aApply C (chanWorld false) (engine P) rx y.x (.step y.rev) := rfl
+
+def SysAS.init (P : HsP) (segs : List Nat) : SysAS :=
+  { x := { a := {}, s := ⟨{}, Hs.init P false, { segs := segs }⟩ }, ep := Hs.init P true }
+
+def SysAS.run (C : Cfg) (P : HsP) (dc : Bytes) (rx : Nat) (l : List ActA) (y : SysAS) : SysAS :=
+  l.foldl (SysAS.step C P dc rx) y
+
+def SysAS.bothFinished (y : SysAS) : Prop := 3 ≤ y.ep.stage ∧ 3 ≤ y.x.s.e.stage
+
+def ActA.okA : ActA → Prop
+  | .drive => True
+  | .peer k => k.ok
+
+instance (a : ActA) : Decidable a.okA := by
+  cases a <;> unfold ActA.okA <;> exact inferInstance
+
+/-- the composition as a `Sys` (the server's glue without its flags) -/
+def SysAS.sys (y : SysAS) : Sys := mkSys false (nf y.x.s).g y.x.s.e ⟨y.x.s.w, y.gp, y.ep, [], y.faults⟩
+
+/-- between steps: the invariant of `Sys`; an unfinished server engine is waiting for a flight; nothing is queued,
+`POLLOUT` is not requested and not remembered as suppressed; the socket is registered -/
+structure AInv (P : HsP) (dc ds : Bytes) (y : SysAS) : Prop where
+  inv : SysInv P dc ds y.sys
+  reads : y.x.s.e.stage < 3 → y.x.s.e.writes = false
+  po : y.x.a.pollOut = false
+  reg : y.x.a.registered = true
+  sup : y.x.s.g.driverSendSuppressed = false
+
+theorem aQuery_idle (E : Engine Hs) (x : ASt Hs Chan) (hreg : x.a.registered = true) (hpo : x.a.pollOut = false)
+    (hsup : x.s.g.driverSendSuppressed = false) (hle : x.s.g.lastError ≠ .wantWrite) : aQuery E x = x := by
+  rcases x with ⟨⟨sendQ, po, reg, fut, del, disc⟩, ⟨⟨le, ps, rt, ir, iw, dss, pe, wire, bw, ec⟩, e, w⟩⟩
+  simp only at hreg hpo hsup hle
+  subst hreg; subst hpo; subst hsup
+  simp only [aQuery, driverQuery, Bool.not_eq_true, not_true_eq_false, if_false, Bool.false_eq_true, Bool.or_false]
+  by_cases hi : E.initFinished e = true
+  · simp [hi]
+  · by_cases hr : le = .wantRead
+    · simp [hi, hle, hr]
+    · simp [hi, hle, hr]
+
+theorem supFrame (b : Bool) : Frame (chanWorld false) (fun s : St Hs Chan => s.g.driverSendSuppressed = b) where
+  core := fun h hc => hc.2.2.2.trans h
+  wait := fun _ _ h => h
+  bioRead := by intro s n h; rw [(bioRead_core (W := chanWorld false) s n).2.2.1]; exact h
+  bioWrite := by intro s bs h; rw [(bioWrite_ctl (W := chanWorld false) s bs).1.2.2.2]; exact h
+
+theorem sys_peer (C : Cfg) (P : HsP) (dc : Bytes) (rx : Nat) (y : SysAS) (k : Kind) :
+    (y.step C P dc rx (.peer k)).sys = y.sys.step C P true (k.call dc) := by
+  simp [SysAS.sys, SysAS.step, mkSys, Sys.step, nf]
+
+/-- one driver step of the server -/
+theorem drive_spec (C : Cfg) (hC : 1 < C.stepsMax) (P : HsP) (dc ds : Bytes) (rx : Nat) (hrx : 1 ≤ rx) (y : SysAS)
+    (hy : AInv P dc ds y) :
+    AInv P dc ds (y.step C P dc rx .drive) ∧ (y.step C P dc rx .drive).ep = y.ep ∧
+    work P (y.step C P dc rx .drive).x.s.e ≤ work P y.x.s.e ∧
+    (CanProg false y.x.s.e y.x.s.w → work P (y.step C P dc rx .drive).x.s.e < work P y.x.s.e) ∧
+    y.x.s.w.sc ≤ (y.step C P dc rx .drive).x.s.w.sc ∧ y.x.s.e.stage ≤ (y.step C P dc rx .drive).x.s.e.stage := by
+  have hside : SideInv P false ds (nf y.x.s) := by
+    have h : SideInv P false ds ⟨(nf y.x.s).g, y.x.s.e, y.x.s.w⟩ := by
+      have := hy.inv.2.1
+      simpa [SysAS.sys, mkSys] using this
+    exact h
+  have hle : y.x.s.g.lastError ≠ .wantWrite := by
+    have h6 : (nf y.x.s).g.lastError = .none ∨ (nf y.x.s).g.lastError = .wantRead := hside.2.2.2.2.2.1
+    have : (nf y.x.s).g.lastError = y.x.s.g.lastError := rfl
+    rw [this] at h6
+    rcases h6 with h | h <;> rw [h] <;> simp
+  have hq : aQuery (engine P) y.x = y.x := aQuery_idle _ _ hy.reg hy.po hy.sup hle
+  by_cases hin : 0 < y.x.s.w.inb false
+  · obtain ⟨bs, s', e1, side1, t1, g1, tight1, _⟩ := receiveReadable_hs C (by omega) P false ds rx hrx y.x.s hside hin
+    have hsup' : s'.g.driverSendSuppressed = false := by
+      have := (supFrame false).receiveReadable C (engine P) y.x.s rx hy.sup
+      rw [e1] at this; exact this
+    have htask0 : aTask C (chanWorld false) (engine P) rx y.x y.rev =
+        aReadable C (chanWorld false) (engine P) rx y.x := by
+      simp [aTask, hy.reg, SysAS.rev, hin]
+    have htask : ∃ a', aTask C (chanWorld false) (engine P) rx y.x y.rev = (.ok (), ⟨a', s'⟩) ∧
+        a'.pollOut = y.x.a.pollOut ∧ a'.registered = y.x.a.registered := by
+      rw [htask0]
+      simp only [aReadable, e1]
+      cases bs with
+      | nil => exact ⟨_, rfl, rfl, rfl⟩
+      | cons b t => exact ⟨_, rfl, rfl, rfl⟩
+    obtain ⟨a', ht, hpo', hreg'⟩ := htask
+    have hstep : y.step C P dc rx .drive = { y with x := ⟨a', s'⟩, faults := y.faults + 0 } := by
+      simp only [SysAS.step, hq, ht, isOk, if_true]
+    rw [hstep]
+    have hinv' : SysInv P dc ds (mkSys false (nf s').g s'.e ⟨s'.w, y.gp, y.ep, [], y.faults⟩) :=
+      sysInv_upd P false dc ds (nf y.x.s).g (nf s').g y.x.s.e s'.e ⟨y.x.s.w, y.gp, y.ep, [], y.faults⟩ s'.w hy.inv
+        side1 t1
+    refine ⟨⟨?_, ?_, by rw [← hy.po]; exact hpo', by rw [← hy.reg]; exact hreg', hsup'⟩, rfl, t1.wk, g1, ?_, t1.st⟩
+    · simpa [SysAS.sys] using hinv'
+    · intro hlt
+      exact side1.2.2.2.2.2.2.1 (tight1 hlt) hlt
+    · have := t1.outLe; simpa [Chan.out] using this
+  · have htask : aTask C (chanWorld false) (engine P) rx y.x y.rev = (.ok (), y.x) := by
+      simp [aTask, hy.reg, SysAS.rev, hin, hy.po]
+    have hstep : y.step C P dc rx .drive = { y with faults := y.faults + 0 } := by
+      simp only [SysAS.step, hq, htask, isOk, if_true]
+    rw [hstep]
+    refine ⟨⟨hy.inv, hy.reads, hy.po, hy.reg, hy.sup⟩, rfl, Nat.le_refl _, ?_, Nat.le_refl _, Nat.le_refl _⟩
+    intro hcp
+    exfalso
+    rcases hcp.2 with hw | hp
+    · rw [hy.reads hcp.1] at hw; cases hw
+    · exact hin hp
 
 end SockModel.Hs
